@@ -76,8 +76,8 @@ def prepare(seed, tier):
 def sizes(tier):
     v, p = tables()
     if tier == "quick":
-        return {"A": len(p), "A2": 0, "B": 120, "C": len(v)}
-    return {"A": len(p) * 8, "A2": len(p) * (len(v)), "B": 6000, "C": len(v) + len(p)}
+        return {"A": len(p), "A2": 0, "O": len(v), "B": 120, "C": len(v)}
+    return {"A": len(p) * 8, "A2": len(p) * (len(v)), "O": len(v) * 8, "B": 6000, "C": len(v) + len(p)}
 
 
 def plan(tier):
@@ -96,13 +96,16 @@ def srckey(src):
     return hashlib.sha256(src.encode()).hexdigest()[:20]
 
 
-def golden(hs, src, planted_hs=None):
-    k = (hs, srckey(src))
+RESERVED = ["proc", "logic", "s0", "x", "y", "cnt", "flag", "mem", "r", "st", "t", "first", "second", "producer", "consumer", "fifo"]
+
+
+def golden(hs, src, planted_hs=None, opts=None):
+    k = (hs, srckey(src + repr(opts) if opts else src))
     g = _golden.get(k)
     if g is None and planted_hs is not None:
-        g = _golden.get((planted_hs, srckey(src)))
+        g = _golden.get((planted_hs, k[1]))
     if g is None:
-        g = pristine.get(hs).call(FN, {"ops": [["compile", src]], "probe": False})[0]
+        g = pristine.get(hs).call(FN, {"ops": [["compile", src] + ([opts] if opts else [])], "probe": False})[0]
         _golden[k] = g
     return g
 
@@ -123,7 +126,7 @@ def check_history(hs, ops):
     for i, (op, o) in enumerate(zip(ops, outs)):
         if op[0] != "compile":
             continue
-        g = golden(hs, op[1], planted_hs=0)
+        g = golden(hs, op[1], planted_hs=0, opts=op[2] if len(op) > 2 else None)
         c = classify(g, o)
         if c:
             det = {"op_index": i, "hashseed": hs, "fresh": {k: g.get(k) for k in ("st", "sha", "exc", "msg")}, "in_history": {k: o.get(k) for k in ("st", "sha", "exc", "msg")}}
@@ -174,6 +177,17 @@ def run_one(seed, idx, tier):
         hs = hss[(di + ei) % nh]
         ops = [["compile", p[e][1]], ["compile", v[d]], ["compile", v[d]]]
         names = [e, d, d]
+    elif grp == "O":
+        # compile options are part of the request, not of the interpreter: alternate a design with and without
+        # additional_reserved_names (seeded subset of names the designs use)
+        rep, di = divmod(j, len(vk))
+        d = vk[di]
+        rs = rng.Stream(seed, "C11", "O", j)
+        hs = hss[(di + rep) % nh]
+        r1 = {"reserved": sorted(rs.sample(RESERVED, rs.range(1, 6)))}
+        d2 = vk[rs.below(len(vk))]
+        ops = [["compile", v[d], r1], ["compile", v[d]], ["compile", v[d2]], ["compile", v[d], r1], ["compile", v[d2], {"reserved": sorted(rs.sample(RESERVED, 3))}], ["compile", v[d]]]
+        names = [d + "+reserved", d, d2, d + "+reserved", d2 + "+reserved", d]
     elif grp == "B":
         rs = rng.Stream(seed, "C11", "history", j)
         hs = hss[rs.below(nh)]
@@ -185,8 +199,12 @@ def run_one(seed, idx, tier):
             c = rs.below(20)
             if c < 19 - 2 * rej_w:
                 k = vk[rs.below(len(vk))]
-                ops.append(["compile", v[k]])
-                names.append(k)
+                if rs.below(5) == 0:
+                    ops.append(["compile", v[k], {"reserved": sorted(rs.sample(RESERVED, rs.range(1, 4)))}])
+                    names.append(k + "+reserved")
+                else:
+                    ops.append(["compile", v[k]])
+                    names.append(k)
             elif c < 19:
                 k = pk[rs.below(len(pk))]
                 ops.append(["compile", p[k][1]])
@@ -300,7 +318,7 @@ ASSUMPTIONS = [
 
 def evidence(results, tier):
     v, p = tables()
-    hist = [r for r in results if r.get("group") in ("A", "B")]
+    hist = [r for r in results if r.get("group") in ("A", "A2", "B", "O")]
     nontriv = {r["shape"] for r in hist if r.get("nrej", 0) >= 1 and r.get("nacc", 0) >= 1}
     dirty = {}
     sites = {}
@@ -311,10 +329,15 @@ def evidence(results, tier):
             k = f"{s[0]}:{s[1]}"
             sites[k] = sites.get(k, 0) + 1
     sample = None
-    for r in hist:
-        if r.get("group") == "B" and r.get("nrej", 0) >= 2:
-            sample = {"run": r["idx"], "hashseed": r.get("hashseed"), "history": r["names"]}
+    for want in ("B", "A", "A2", "O"):
+        for r in hist:
+            if r.get("group") == want and r.get("nrej", 0) >= 1:
+                sample = {"run": r["idx"], "hashseed": r.get("hashseed"), "history": r["names"]}
+                break
+        if sample:
             break
+    if sample is None and hist:
+        sample = {"run": hist[0]["idx"], "hashseed": hist[0].get("hashseed"), "history": hist[0]["names"]}
     return {
         "evaluations": len(results),
         "distinct_nontrivial": len(nontriv),
